@@ -7,7 +7,7 @@ import warnings
 
 import numpy as np
 
-from hyverif.core import digest, same_result, scalar_forms
+from hyverif.core import digest, same_result, scalar_forms, size_edges
 
 ID = "C08"
 SHARDS = {"quick": 8, "thorough": 16}
@@ -26,7 +26,7 @@ ASSUMPTIONS = [
     "maxnan missing values",
     "sums compared to 1e-11 x sum|v| (exact on the lattice), max / tail exactly",
 ]
-OBLIGATIONS = {"reuse-array": 100, "values:mixed-magnitude": 10, "maxnan:on-a-group-count": 100, "op0": 50, "op1": 50, "op2": 50, "op3": 50, "neg-values+max": 20,
+OBLIGATIONS = {"size-edge": 20, "reuse-array": 100, "values:mixed-magnitude": 10, "maxnan:on-a-group-count": 100, "op0": 50, "op1": 50, "op2": 50, "op3": 50, "neg-values+max": 20,
                "nan-last-in-group+tail": 20, "whole-group-nan": 20, "single-group": 10,
                "n=1": 5, "extreme-index": 10, "reject:decreasing": 30,
                "flathomogen": 50, "goue": 20, "goue:transform": 5, "m2d:flat": 10, "m2d:cubic": 10,
@@ -413,6 +413,10 @@ def run(ctx):
         n = [1, 2, 3, 5][it % 4] if it % 9 == 0 else int(rng.integers(1, 120))
         if it % 50 == 3:
             n = int(rng.integers(500, 2001))
+        if it % 10 == 7:
+            ed = size_edges(2, 20001 if ctx.tier == "quick" else 100001)
+            n = ed[((it0 // 10) * ctx.nshards + ctx.shard) % len(ed)]
+            ctx.tag("size-edge")
         idx = gen_index(rng, n, int(rng.integers(0, 7)))
         v = gen_values(rng, n, int(rng.integers(0, 6)))
         if np.abs(v).max() >= 1e12:
